@@ -211,6 +211,26 @@ pub fn run(ctx: &mut Ctx) {
             report(ctx, "zinc-roundtrip", &m, 0, f);
         }
     }
+    // boundary offsets: a character that needs an escape or several bytes, at every byte offset up to 1100 and around
+    // 2^11, 2^12, 2^13, 2^16 of a Str, a Ref display name, an XStr value, a Uri and a dict tag
+    {
+        let lens = crate::gen::boundary_lengths();
+        for (li, n) in lens.iter().enumerate() {
+            if (li as u64) % ctx.nshards != ctx.shard || (ctx.quick() && *n > 1100 && *n < 65000) {
+                continue;
+            }
+            if !ctx.begin("boundary-offset", li as u64) {
+                continue;
+            }
+            for c in crate::gen::BOUNDARY_CHARS {
+                let m = crate::gen::boundary_value(*n, c);
+                ctx.eval("boundary-offset", crate::prng::mix(&[*n as u64, c as u64]), true);
+                if let Err(f) = zinc_roundtrip(&m, 0) {
+                    report(ctx, "zinc-roundtrip", &m, 0, f);
+                }
+            }
+        }
+    }
     // deep chains: every depth up to the decoder's documented limit (127 nested containers; for Hayson a grid costs
     // three JSON levels of serde_json's 128, so grid chains stop at 42)
     if ctx.shard == 0 {
